@@ -552,6 +552,12 @@ VEC_INC = ["C05_v128c_increment", "C05_v256c_increment", "C05_v64c_increment", "
            "C06_vec128_keystream", "C06_vec256_keystream", "C06_vec64_keystream", "C06_mantis_vec128_keystream", "C05_lane_increment_sequences", "C05_source_calls_checked", "C05_vec128_stagger_and_step", "C09_xor_blocks", "C09_xor_partial"]
 thm("C05", ["C05", "C06", "C05V", "C06V", "C07M", "C09X"], ["C05_stream", "C05_init", "C05_involution", "C05_calls", "C05_C06_instances"] + VEC_INC)
 thm("C06", ["C06", "C05V", "C06V", "C07M", "C09X"], ["C06_ctr", "C06_step", "C06_init", "C05_C06_instances"] + VEC_INC)
+# the refill step of the vector CTR files, as translated code, is the refill step of the lane state machine (Properties/C06R.lean)
+REFILL = [P + "C06R_vec128_refill", P + "C06R_vec256_refill", P + "C06R_vec64_refill", P + "C06R_mantis_refill", P + "fold_value"]
+for _p in ("C05", "C06"):
+    PROPS[_p]["modules"].append("SkinnyVerif.Properties.C06R")
+    PROPS[_p]["theorems"] += REFILL
+PROPS["C08"]["modules"]  # (C08G is added below)
 def search_c13(run, tier, rng):
     """a C13 theorem no longer checks: (1) the emulated-CPU matrix at full size against the real code;
     (2) the generated probe model against the architectural specification (covers XCR0, which cannot be emulated)"""
